@@ -140,6 +140,18 @@ func simCampaign(prop string, enable func(*Monitors), clients bool) vk.Campaign 
 				r.Sample(c.Summary())
 			}
 		}
+		if clients {
+			// the catch-up schedule with a lost block-request reply, with commands entering through real client calls
+			for k, rs := range Rulesets[:2] {
+				for variant := 0; variant < 6; variant++ {
+					if p.Mine(520 + 6*k + variant) {
+						if c := RunCatchupLostFetch(variant, rs, "eddsa", true, vbase.NewRng(p.Seed, "catchup-lost-fetch", rs, variant), r, enable); c != nil {
+							finish(c, c.Cfg.String()+" "+c.Cfg.Label, -2100-6*k-variant, "directed")
+						}
+					}
+				}
+			}
+		}
 		// directed scenario library first
 		if !clients {
 			di := 0
@@ -173,7 +185,7 @@ func simCampaign(prop string, enable func(*Monitors), clients bool) vk.Campaign 
 			for k, rs := range Rulesets[:2] {
 				for variant := 0; variant < 6; variant++ {
 					if p.Mine(520 + 6*k + variant) {
-						if c := RunCatchupLostFetch(variant, rs, "eddsa", vbase.NewRng(p.Seed, "catchup-lost-fetch", rs, variant), r, enable); c != nil {
+						if c := RunCatchupLostFetch(variant, rs, "eddsa", false, vbase.NewRng(p.Seed, "catchup-lost-fetch", rs, variant), r, enable); c != nil {
 							finish(c, c.Cfg.String()+" "+c.Cfg.Label, -2100-6*k-variant, "directed")
 						}
 					}
